@@ -27,6 +27,7 @@ import EinoV.Expected.C02Workflow
 import EinoV.Proofs.TransDag
 import EinoV.Proofs.TransMgrInit
 import EinoV.Proofs.TransStep
+import EinoV.Proofs.TransTab
 
 namespace EinoV.C02
 open EinoV.Engine EinoV.Gen
@@ -1189,5 +1190,144 @@ example : goIdx? [1, 2, 3] 3 = none ∧ goIdx? [1, 2, 3] (-1) = none ∧ goSlice
     goSlice? [1, 2, 3] 1 3 = some [2, 3] := by decide
 
 end TranslatedStep
+
+/-! ### The translated table-building code (Gen/TransTab.lean; gotrans phase 5)
+
+  What the translated functions of phases 2–4 READ is built by code that is translated too:
+  `dagChannelBuilder` / `pregelChannelBuilder` (the initial channel state), the func type `chanBuilder` as a
+  source-checked closed sum, `getSuccessors`, `(*runner).initChannelManager`, and — as a *fragment*, the
+  statements from `dataPredecessors := make(map[string][]string)` up to the one before
+  `inputChannels := &chanCall{…}` — the part of `(*graph).compile` that builds `dataPredecessors` /
+  `controlPredecessors`.  The theorems say: the fragment computes the predecessor tables of the model's
+  `compile` (Model/GraphBuild.lean); the builders compute `Chan.init`; `initChannelManager` returns exactly
+  the manager `initMgr r s` for which `Rel` / `ChansOK` (phase 2) and `MgrInv` / `CallsClosed` (phase 4) are
+  proved — so these hypotheses hold for the manager the SOURCE builds.
+
+  Orders.  Go ranges over the maps `g.controlEdges`, `g.dataEdges`, `g.branches` and `branch.endNodes`; the
+  model folds over lists.  The theorems are equalities for every stored order: the model's lists are the
+  flattened maps *in their stored order* (`flatEdges`, `flatBranches`, `ends = akeys endNodes`), and every
+  theorem about the model holds for all lists.  Nothing is proved "up to permutation". -/
+section TranslatedTables
+open EinoV.GoSem EinoV.TransMgr EinoV.TransStep EinoV.TransTab EinoV.Gen.TransMgr EinoV.Gen.TransTab
+variable {V : Type} [Inhabited V]
+
+theorem translated_tables_source_is_current : FactsC02.tablesTranslated = true := by decide
+
+/-- the fragment of `graph.compile`: the model's folds over the flattened edge / branch maps -/
+theorem translated_compile_predecessors_refines (ext : Ext V) (mext : MgrExt V) (g : graph V) :
+    graph_compile_predecessors ext mext g =
+      ((flatBranches g.branches).foldl (fun m b =>
+          if b.2.noDataFlow then m else (akeys b.2.endNodes).foldl (fun m e => addPred m e b.1) m)
+        ((flatEdges g.dataEdges).foldl (fun m e => addPred m e.2 e.1) []),
+       (flatBranches g.branches).foldl (fun m b => (akeys b.2.endNodes).foldl (fun m e => addPred m e b.1) m)
+        ((flatEdges g.controlEdges).foldl (fun m e => addPred m e.2 e.1) [])) :=
+  compile_predecessors_spec ext mext g
+
+/-- **the fragment computes `dataPreds` / `ctrlPreds` of the model's `compile`** -/
+theorem translated_compile_predecessors_is_model (ext : Ext V) (mext : MgrExt V) (slack : Nat) (gd : GraphDef V)
+    (g : graph V) (hce : flatEdges g.controlEdges = gd.edges) (hde : flatEdges g.dataEdges = gd.edges)
+    (hbr : ListRel BrTabRel (flatBranches g.branches) gd.branches) :
+    graph_compile_predecessors ext mext g = ((compile slack gd).dataPreds, (compile slack gd).ctrlPreds) :=
+  compile_predecessors_model ext mext slack gd g hce hde hbr
+
+/-- the model's tables have one entry per key: they are Go maps -/
+theorem translated_model_tables_are_maps (slack : Nat) (g : GraphDef V) :
+    (akeys (compile slack g).dataPreds).Nodup ∧ (akeys (compile slack g).ctrlPreds).Nodup :=
+  compile_tables_nodup slack g
+
+/-- `getSuccessors` is the model's `Node.successors` (never a panic) -/
+theorem translated_getSuccessors_refines (ext : Ext V) (mext : MgrExt V) (c : chanCall V) (n : Node V)
+    (hw : c.writeTo = n.writeTo) (hc : c.controls = n.controls)
+    (hb : c.writeToBranches.map (fun b => akeys b.endNodes) = n.branches.map (·.ends)) :
+    getSuccessors ext mext c = .ret n.successors :=
+  getSuccessors_is_successors ext mext c n hw hc hb
+
+/-- the channel builders: the initial channel is the model's `Chan.init` -/
+theorem translated_channelBuilders_refine (ext : Ext V) (mext : MgrExt V) (cp dp : List String) :
+    chanOf (dagChannelBuilder ext mext cp dp) = Chan.init true cp dp ∧
+    chanOf (pregelChannelBuilder ext mext cp dp) = Chan.init false cp dp ∧
+    ChWF (dagChannelBuilder ext mext cp dp) := by
+  refine ⟨?_, ?_, dagChannelBuilder_wf ext mext cp dp⟩
+  · rw [dagChannelBuilder_spec]; exact chanOf_ofChanR_init true cp dp
+  · rw [pregelChannelBuilder_spec]; exact chanOf_ofChanR_init false cp dp
+
+/-- **`initChannelManager` (translated) returns `initMgr r s`** -/
+theorem translated_initChannelManager_is_initMgr (ext : Ext V) (mext : MgrExt V) (gr : runner V) (r : Runner V)
+    (s : Bool) (h : TabRel gr r) (hnd : (akeys (initChans r)).Nodup)
+    (hdk : (akeys r.dataPreds).Nodup) (hck : (akeys r.ctrlPreds).Nodup) :
+    runner_initChannelManager ext mext gr s = .ret (initMgr r s) :=
+  initChannelManager_is_initMgr ext mext gr r s h hnd hdk hck
+
+/-- **the hypotheses of the translated manager and step function hold for the manager the source builds** -/
+theorem translated_init_hypotheses_from_source (ext : Ext V) (mext : MgrExt V) (gr : runner V) (r : Runner V)
+    (s : Bool) (h : TabRel gr r) (hnd : (akeys (initChans r)).Nodup)
+    (hdk : (akeys r.dataPreds).Nodup) (hck : (akeys r.ctrlPreds).Nodup)
+    (hc : RunnerClosed r) (hs : ∀ k ∈ r.start.successors, k ∈ akeys (initChans r)) :
+    ∃ c, runner_initChannelManager ext mext gr s = .ret c ∧ c.isStream = s ∧
+      MgrInv r c ∧ CallsClosed r c ∧ toChans c.channels = initChans r :=
+  init_hypotheses_from_source ext mext gr r s h hnd hdk hck hc hs
+
+/-- the successors fragment of `graph.compile` (`successors := make(…)` … before `r.successors = successors`;
+    the local `r` is a parameter): one entry per registered node, in stored order, holding `getSuccessors` -/
+theorem translated_compile_successors_refines (ext : Ext V) (mext : MgrExt V) (g : graph V) (r : runner V)
+    (hn : (akeys r.chanSubscribeTo).Nodup) :
+    graph_compile_successors ext mext g r = .ret (r.chanSubscribeTo.map (fun p => (p.1, succOf p.2))) :=
+  compile_successors_spec ext mext g r hn
+
+/-- … which is the `successors` table `TabRel` asks for when every `chanCall` is the model's node of its key -/
+theorem translated_compile_successors_is_model (ext : Ext V) (mext : MgrExt V) (g : graph V) (r : runner V)
+    (nodes : List (Node V)) (hn : (akeys r.chanSubscribeTo).Nodup)
+    (hrel : ListRel (fun (p : Key × chanCall V) (n : Node V) => p.1 = n.key ∧ p.2.writeTo = n.writeTo ∧
+      p.2.controls = n.controls ∧ p.2.writeToBranches.map (fun b => akeys b.endNodes) = n.branches.map (·.ends))
+      r.chanSubscribeTo nodes) :
+    graph_compile_successors ext mext g r = .ret (nodes.map (fun n => (n.key, n.successors))) :=
+  compile_successors_model ext mext g r nodes hn hrel
+
+/-! non-vacuity: the Go maps of the graph `exR2` (start → a; a → branch {b, c}; b, c → end) -/
+
+def exTabBr : GraphBranch Nat := { endNodes := [("b", true), ("c", true)], noDataFlow := false }
+def exTabG : graph Nat :=
+  { controlEdges := [("start", ["a"]), ("b", ["end"]), ("c", ["end"])],
+    dataEdges := [("start", ["a"]), ("b", ["end"]), ("c", ["end"])],
+    branches := [("a", [exTabBr])] }
+
+/-- the translated fragment on these maps gives the tables of `exR2` (edges first, then branch ends) -/
+example : graph_compile_predecessors (TransDag.extOf natOps 0) noH exTabG =
+    ([("a", ["start"]), ("end", ["b", "c"]), ("b", ["a"]), ("c", ["a"])],
+     [("a", ["start"]), ("end", ["b", "c"]), ("b", ["a"]), ("c", ["a"])]) := by decide
+
+/-- a control-only branch (`noDataFlow`) is recorded in the control table only -/
+example : graph_compile_predecessors (TransDag.extOf natOps 0) noH
+    { exTabG with branches := [("a", [{ exTabBr with noDataFlow := true }])] }
+    = ([("a", ["start"]), ("end", ["b", "c"])],
+       [("a", ["start"]), ("end", ["b", "c"]), ("b", ["a"]), ("c", ["a"])]) := by decide
+
+def exTabR : runner Nat :=
+  { chanSubscribeTo := [("a", { writeTo := [], writeToBranches := [exTabBr], controls := [] }),
+                        ("b", { writeTo := ["end"], writeToBranches := [], controls := ["end"] }),
+                        ("c", { writeTo := ["end"], writeToBranches := [], controls := ["end"] })],
+    successors := exR2.nodes.map (fun n => (n.key, n.successors)),
+    dataPredecessors := exR2.dataPreds, controlPredecessors := exR2.ctrlPreds,
+    chanBuilder := .of_dagChannelBuilder }
+
+example : TabRel exTabR exR2 := ⟨by decide, rfl, rfl, rfl, ⟨fun _ => rfl, fun h => by simp [exR2] at h⟩⟩
+
+/-- the translated `initChannelManager` on this runner: channels a, b, c, end with the model's initial state -/
+example : (match runner_initChannelManager (TransDag.extOf natOps 0) noH exTabR false with
+    | .ret c => (toChans c.channels).map (fun p => (p.1, p.2.ctrl, p.2.data))
+    | _ => []) =
+    [("a", [("start", Dep.waiting)], [("start", false)]), ("b", [("a", Dep.waiting)], [("a", false)]),
+     ("c", [("a", Dep.waiting)], [("a", false)]),
+     ("end", [("b", Dep.waiting), ("c", Dep.waiting)], [("b", false), ("c", false)])] := by decide
+
+/-- the successors fragment on this runner is the table it carries -/
+example : (match graph_compile_successors (TransDag.extOf natOps 0) noH exTabG exTabR with
+    | .ret t => t
+    | _ => []) = exTabR.successors := by decide
+
+/-- a nil builder is the pregel builder; a call of a nil func value would be the explicit outcome panic -/
+example : (chanBuilder_call (V := Nat) (TransDag.extOf natOps 0) noH .nil [] []).isNone = true := by decide
+
+end TranslatedTables
 
 end EinoV.C02
